@@ -597,6 +597,7 @@ class PairwiseForSubvar(Contract):
     name = MOD + ":_PairwiseSigTStatsForSubvar / _PairwiseSigPValsForSubvar.blocks"
     props = ("C13", "C04")
     tier = "B"
+    quick_cap = 14  # ~4 s per size configuration (nested loops over rows x items)
 
     def configs(self):
         # the selected item's own p-value is a separate configuration (open finding F19)
@@ -712,3 +713,16 @@ class SliceScaleMeanMargins(Contract):
 
 
 REGISTRY.append(SliceScaleMeanMargins())
+
+
+# C10 (exchange of the two dimensions) rests on every class-level contract of this module: the
+# row-direction result of a response equals the transposed column-direction result of the
+# exchanged response because each class meets its own spec function and the spec functions
+# are mirror images (contracts/mirror_c.py).  A change that breaks one of a pair of twins
+# fails that class's contract, so each of them is also run by the C10 check.  (Not the 2-D
+# margin-proportion contract: it carries the open finding F17, which is a defect of both
+# directions alike - not evidence against the exchange property.)
+for _c in REGISTRY:
+    if (_c.__class__.__module__ == __name__ and "C10" not in _c.props and "lemma." not in _c.name
+            and not any(w in _c.name for w in ('Pairwise', 'Overlaps', 'margin_proportion<2-D'))):
+        _c.props = tuple(_c.props) + ("C10",)
